@@ -525,6 +525,17 @@ def larger_inequalities(chunk, replay=None):
             else:
                 cs = [rng.choice([-12, -7, -5, -3, -2, -1, 0, 1, 1, 2, 3, 4, 5, 8, 12]) for _ in range(k)]
             atoms = [(rng.randrange(nv), rng.random() < 0.7, c) for c in cs]
+            fixed_case = None
+            if it < 2 and chunk < 2:    # two recorded families with 12 literals whose sub-problems "11 terms, bound d" and "1 term, bound 1d" must not be confused
+                fixed_case = [([25] + [15] * 11, 30), ([22] + [12] * 11, 24)][it]
+                nv = 12
+                atoms = [(v, True, c) for v, c in enumerate(fixed_case[0])]
+                shape = "many_literals"
+            elif rng.random() < 0.03:     # ten or more pending terms (added after the open seed r8-C07-2: a memo key that concatenates two numbers without a separator)
+                nv = rng.choice([11, 12])
+                cs = [rng.choice([25, 15, 9])] + [rng.choice([15, 15, 5, 3]) for _ in range(nv - 1)]
+                atoms = [(v, rng.random() < 0.8, c) for v, c in enumerate(cs)]
+                shape = "many_literals"
             nr = rng.choice([0, 0, 0, 1, 2])
             terms, rterms = atoms[:len(atoms) - nr], atoms[len(atoms) - nr:]
             lo = sum(min(0, c) for _, _, c in terms) - sum(max(0, c) for _, _, c in rterms)
@@ -536,6 +547,8 @@ def larger_inequalities(chunk, replay=None):
                 b = rng.randint(lo - 1, hi + 1)
             op = rng.choice(list(OPS))
             dec = rng.random() < 0.5
+            if fixed_case:
+                terms, rterms, b, op, dec = atoms, [], fixed_case[1], ">=", (chunk == 1)
         evals += 1
         st, f = check_one(nv, terms, 0, rterms, b, op, dec, also_solve=(it % 3 == 0))
         if st == "refused":
